@@ -197,11 +197,9 @@ pub fn check_frame(sim: &mut Sim, ci: usize) -> Result<(), Fail> {
     let map = cw.resource::<ServerEntityMap>();
     // pre-mapped entities that are not (yet) visible to this client are allowed extras
     let mut extras = 0;
-    for slot in 0..nslots {
-        if let (Some(se), Some(local)) = (sim.slots[slot], sim.prespawned[ci][slot]) {
-            if !expected.contains_key(&se) && map.to_client().get(&se) == Some(&local) {
-                extras += 1;
-            }
+    for se in &sim.premapped[ci] {
+        if !expected.contains_key(se) && map.to_client().contains_key(se) {
+            extras += 1;
         }
     }
     if sim.or.structure {
@@ -231,7 +229,7 @@ pub fn check_frame(sim: &mut Sim, ci: usize) -> Result<(), Fail> {
             return Err(Fail::new("C03.map_inverse", format!("client {ci}: entity map is not a bijection at {se}")));
         }
         let Some(exp) = expected.get(&se) else {
-            if (0..nslots).any(|slot| sim.slots[slot] == Some(se) && sim.prespawned[ci][slot] == Some(ce)) {
+            if sim.premapped[ci].contains(&se) {
                 continue;
             }
             if sim.or.structure {
@@ -376,12 +374,10 @@ pub fn check_converged(sim: &mut Sim) -> Result<(), Fail> {
             }
         }
         let mut extras = 0;
-        for slot in 0..nslots {
-            if let (Some(se), Some(local)) = (sim.slots[slot], sim.prespawned[ci][slot]) {
-                let vis = sim.marked[slot] && sim.visible_to(ci, slot);
-                if !vis && sim.clients[ci].app.world().resource::<ServerEntityMap>().to_client().get(&se) == Some(&local) {
-                    extras += 1;
-                }
+        for se in &sim.premapped[ci] {
+            let shown = (0..nslots).any(|slot| sim.slots[slot] == Some(*se) && sim.marked[slot] && sim.visible_to(ci, slot));
+            if !shown && sim.clients[ci].app.world().resource::<ServerEntityMap>().to_client().contains_key(se) {
+                extras += 1;
             }
         }
         let c = &mut sim.clients[ci];
@@ -592,6 +588,28 @@ pub fn check_mutate_ticks_final(sim: &mut Sim) -> Result<(), Fail> {
                     format!("client {i}: ServerMutateTicks::contains({t}) = {got} with {delivered} of {n} messages delivered (last tick {last})"),
                 ));
             }
+        }
+    }
+    Ok(())
+}
+
+/// C07 / C09 at quiescence: a connected client that the authorization method admits is authorized again in every session
+/// (with the protocol check: its hash was sent on this connection, too).
+pub fn check_authorized_after_settle(sim: &mut Sim) -> Result<(), Fail> {
+    for ci in 0..sim.clients.len() {
+        if !sim.clients[ci].connected {
+            continue;
+        }
+        let admitted = match sim.cfg.auth {
+            0 => true,
+            2 => sim.cfg.mismatch & (1 << ci) == 0,
+            _ => false,
+        };
+        if admitted && !sim.authorized(ci) {
+            return Err(Fail::new(
+                "C07.match_not_authorized",
+                format!("client {ci} (session {}) is connected, everything was delivered, but it is not authorized", sim.clients[ci].session),
+            ));
         }
     }
     Ok(())
